@@ -44,8 +44,9 @@ Definition s_where : str := [32;87;72;69;82;69;32;82;79;87;73;68;32;62;32;48].  
 Definition s_and_inp_like : str := [32;65;78;68;32;105;110;112;32;76;73;75;69;32;63].   (* _AND inp LIKE ? *)
 Definition s_and_session : str := [32;65;78;68;32;115;101;115;115;105;111;110;105;100;32;61;32;63]. (* _AND sessionid = ? *)
 Definition s_and_info_like : str := [32;65;78;68;32;105;110;102;111;32;108;105;107;101;32;63]. (* _AND info like ? *)
-Definition s_order_asc : str := [32;79;82;68;69;82;32;66;89;32;116;115;98].          (* _ORDER BY tsb *)
-Definition s_order_desc : str := [32;111;114;100;101;114;32;98;121;32;116;115;98;32;100;101;115;99]. (* _order by tsb desc *)
+Definition s_order_asc : str := [32;79;82;68;69;82;32;66;89;32;116;115;98;44;32;114;111;119;105;100].   (* _ORDER BY tsb, rowid *)
+Definition s_order_desc : str :=                                                     (* _order by tsb desc, rowid desc *)
+  [32;111;114;100;101;114;32;98;121;32;116;115;98;32;100;101;115;99;44;32;114;111;119;105;100;32;100;101;115;99].
 Definition s_limit : str := [32;108;105;109;105;116;32].                             (* _limit_ *)
 
 Record lopts := mko { o_session : bool; o_asc : bool; o_pwd : bool; o_limit : Z }.
@@ -202,22 +203,23 @@ Definition clause_holds (r : row) (c : clause) : bool :=
 Definition row_matches (pattern session dir : str) (o : lopts) (r : row) : bool :=
   forallb (clause_holds r) (select_clauses pattern session dir o).
 
-(** stable insertion sort by tsb (ties keep rowid order; sqlite leaves ties unspecified) *)
+(** ORDER BY tsb, rowid (6b3083d): the sort key is the pair, compared lexicographically;
+    rowids are unique, so the order is total and no tie is left to sqlite's sorter. *)
+Definition lt_key (x y : row) : bool :=
+  (r_tsb x <? r_tsb y)%Z || ((r_tsb x =? r_tsb y)%Z && (r_id x <? r_id y)).
+
 Fixpoint ins_asc (x : row) (l : list row) : list row :=
   match l with
   | [] => [x]
-  | y :: l' => if (r_tsb x <? r_tsb y)%Z then x :: l else y :: ins_asc x l'
+  | y :: l' => if lt_key x y then x :: l else y :: ins_asc x l'
   end.
 Definition sort_asc (l : list row) : list row := fold_right ins_asc [] (rev l).
-(* rev + strict test: equal keys end up in the original order *)
 
-(** ORDER BY tsb DESC as sqlite's sorter does it: stable, rows with EQUAL tsb stay in
-    scan (rowid) order (observed with the bundled sqlite and with 3.40; SQL leaves it
-    unspecified -- the theorems about order do not rely on it, the refutation does). *)
+(** order by tsb desc, rowid desc *)
 Fixpoint ins_desc (x : row) (l : list row) : list row :=
   match l with
   | [] => [x]
-  | y :: l' => if (r_tsb y <? r_tsb x)%Z then x :: l else y :: ins_desc x l'
+  | y :: l' => if lt_key y x then x :: l else y :: ins_desc x l'
   end.
 Definition sort_desc (l : list row) : list row := fold_right ins_desc [] (rev l).
 
@@ -231,11 +233,23 @@ Definition db_list (rows : list row) (pattern session dir : str) (o : lopts) : l
   if o_asc o then take_limit (o_limit o) (sort_asc m) else rev (take_limit (o_limit o) (sort_desc m)).
 
 (** The table is kept in rowid = submission order.  The hypothesis under which listing by
-    time is listing by submission: tsb strictly increasing along the table. *)
+    (time, rowid) is listing by submission: along the table the rowids increase (sqlite's
+    allocation, see db_insert) and tsb never decreases.  [incrb] is the same thing said on
+    the sort key. *)
 Fixpoint incrb (l : list row) : bool :=
   match l with
   | [] => true
-  | a :: t => forallb (fun b => (r_tsb a <? r_tsb b)%Z) t && incrb t
+  | a :: t => forallb (fun b => lt_key a b) t && incrb t
+  end.
+Fixpoint ids_incr (l : list row) : bool :=
+  match l with
+  | [] => true
+  | a :: t => forallb (fun b => r_id a <? r_id b) t && ids_incr t
+  end.
+Fixpoint tsb_nondecr (l : list row) : bool :=
+  match l with
+  | [] => true
+  | a :: t => forallb (fun b => (r_tsb a <=? r_tsb b)%Z) t && tsb_nondecr t
   end.
 
 (* ------------------------------------------------------------------ main loop: what is recorded *)
